@@ -236,6 +236,21 @@ def r3_link_move_table(chk: Check):
 def r4_recomputed_identifier(chk: Check):
     c12.r1_record_keys(chk)
     c12.r3_tristate(chk)
+    # "discard the stored identifier" really discards it: the loader stores the identifier of the file only when it was not asked to discard it,
+    # and the request travels from fromParameters to the loader (otherwise the repair compares the stored identifier with itself)
+    tree = chk.tree
+    lo = tree.func("core.objects", "ConfigInformation.load_objects")
+    g = CFG(lo.node)
+    stores = [n for n in g.live if n.kind == "stmt" and isinstance(n.ast, ast.Assign) and any(src(t).endswith(("._identifier", ".__xpmidentifier__")) for t in n.ast.targets)
+              and "from_state_dict" in src(n.ast.value)]
+    chk.min_instances(len(stores), 1, "stores of the recorded identifier in load_objects")
+    for n in stores:
+        gs = [(src(t.ast), pol) for t, pol in g.guards(n) if t.kind == "test"]
+        chk.require(("discard_id", False) in gs, chk.fkey(lo, f"stored identifier kept only when not discarded: {src(n.ast.targets[0])}"),
+                    f"`{src(n.ast)[:70]}` is executed under {gs}: with discard_id the identifier recorded in the file must not be restored", chk.loc(lo.module, n.ast))
+    fp = tree.func("core.objects", "ConfigInformation.fromParameters")
+    fwd = [c for c in fn_calls(fp.node) if tail(c) == "load_objects" and any(k.arg == "discard_id" and src(k.value) == "discard_id" for k in c.keywords)]
+    chk.require(len(fwd) >= 1, chk.fkey(fp, "discard_id forwarded"), "fromParameters does not hand `discard_id` to load_objects", chk.loc(fp.module, fp.node))
 
 
 def r5_cleanup_order(chk: Check):
